@@ -123,7 +123,14 @@ func runC12BoundsPkg(c *Ctx, pkgName string) {
 				c.OK("R12.1", key, n.Pos(), "unreachable")
 				return
 			}
-			ineqs := stateIneqs(st)
+			// what is known about the indexed value itself by construction (path.Clean is never
+			// empty, strings.Index stays within its argument): postconditions are attached to
+			// the call terms the state mentions, so mention it
+			stx := st
+			if ct := ff.term(container); ct != nil {
+				stx = st.with(mkFact(true, "eq", ct, ct))
+			}
+			ineqs := stateIneqs(stx)
 			var failed []string
 			for _, g := range goals {
 				if !proveGE0(g, ineqs, nn) {
